@@ -104,8 +104,8 @@ CONDITIONS = [
     Cond(name="roundtrip", fn="roundtrip", params=_P, pre=_PRE,
          partitions={"quick": [{"v1": a, "v2": (a * 7 + 3) % NV, "v3": (a * 5 + 1) % NV, "nid": (a * 3 + 2) % NV, "fmt": a % 4, "ac": a % 3,
                                 "sign_response": a % 2 == 0, "sign_assertion": (a // 2) % 2 == 0, "want": a % 4, "session": a % 3 == 0, "soap": a % 2 == 1} for a in range(NV)],
-                     "thorough": [{"v1": a, "v2": b, "fmt": a % 4, "ac": b % 3, "sign_response": sr, "sign_assertion": sa, "want": (a + b) % 4}
-                                  for a in range(NV) for b in range(NV) for sr in (False, True) for sa in (False, True)]},
+                     "thorough": [{"v1": a, "v2": (a * 7 + 3) % NV, "v3": a, "nid": a, "fmt": f, "ac": a % 3, "want": (a + f) % 4, "session": a % 2 == 0}
+                                  for a in range(NV) for f in range(4)]},
          timeout={"quick": 900, "thorough": 2400}, path_timeout=120,
          functions=["server.Server.create_authn_response/_authn_response/setup_assertion", "entity.Entity._response/_encrypt_assertion", "assertion.Assertion.construct",
                     "attribute_converter.from_local/to_local", "SamlBase.to_string (ElementTree serialisation)", "client_base.Base.parse_authn_request_response",
